@@ -193,6 +193,10 @@ EXTRA8 = {
  "C13": " Eighth round: sub-check lockorder (String of module-holding scopes against operations that walk up through the module or its child: no schedule ends with every thread waiting for a lock of another scope).",
  "C17": " Eighth round: sub-checks errs (50 callback error values: standard-library sentinels, anko's own, wrapped, uncomparable dynamic types - Walk returns that very value) and again (later walks of one tree after a callback wrote over presented values that are not nodes of the tree).",
  "C19": " Eighth round: sub-checks tostring_fmt (values formatted through Format / Error / String / GoString methods, host-bound and made by bundled constructors, against fmt.Sprint) and result_history (the address of a builtin's result is taken and written through; the builtin still gives the Go answer in this and later runs; run in a sandbox child).",
+ "C04": " Eighth round: sub-check modules (a module statement for a name already bound further out, in every block form, function and closure: it binds in the current block only, its body sees the locals of the declaring block, the outer module is unchanged afterwards).",
+ "C15": " Eighth round: sub-check words (identifiers that resemble keywords - prefix, suffix, other case, two in a row - as first token of a line at every join of an n-ary composition).",
+ "C11": " Eighth round: a value met by a pointer parameter (and the reverse) has no conversion and must fail (sub-check ptrmix); sub-checks laterargs (deferred and go calls of Go functions whose argument places are stored into after the statement) and retained (a callback kept by Go and invoked after the handing run returned and its context was cancelled).",
+ "C16": " Eighth round: sub-checks loopvar (for-in bodies over channels that assign their loop variable or keep items under other names) and heldsend (senders parked in a send of a slot's content, observed by a stopped-world goroutine snapshot, before the slot is overwritten: the value at the send statement arrives).",
 }
 for _i, _t in EXTRA8.items():
     CHECKS[_i]["text"] += _t
